@@ -95,6 +95,9 @@ def settle(rep, prop, fails, events, c, extra_replay=None):
             rep.known[sig] = rep.known.get(sig, 0) + 1
             continue
         ev = events[i - 1] if 0 < i <= len(events) else None
+        if len(rep.violations) >= 25:
+            rep.more_violations = getattr(rep, "more_violations", 0) + 1
+            continue
         run_events = [e for e in events if e.get("run") == run]
         rep.violation("%s/%s fails at trace event %d (run %s step %s, signature %s): %s" % (prop, name, i, run, k, sig, json.dumps(ev)[:600]),
                       {"property": prop, "formula": name, "signature": sig, "constants": {k2: (v.op if isinstance(v, Sub) else sorted(v) if isinstance(v, (set, frozenset)) else v) for k2, v in c.items()},
